@@ -10,6 +10,8 @@ mod pin;
 mod poll_state;
 mod stream;
 mod tuple;
+#[cfg(feature = "verif-keyset")]
+pub(crate) mod verif_keyset;
 mod wakers;
 
 #[doc(hidden)]
